@@ -19,6 +19,8 @@ def check(rep):
     # a layout-only edit is still a different text for recompile(): the skip guard must compare the exact text
     ER.rule_skip_guard(ctx, rid="C08.SKIP-EXACT")
     ER.rule_text_unmodified(ctx)
+    from . import gramrules as GR
+    GR.rule_layout_free_values(ctx)
     # the comment state must be total: otherwise its error() (sly's default raises) is reachable
     for state, lc in ctx.states.items():
         if state == ctx.main.name:
